@@ -264,6 +264,11 @@ func argString(t *rt.Tape, a circuit.IOArg) (string, bool) {
 		for len(h) < bits/4 {
 			h = "0" + h
 		}
+		if eb := int(a.Type.ElementType.Bits); eb%4 == 0 && eb > 0 && t.Choose(rt.SGen, 3) == 0 {
+			// a buffer that is only partly filled: the last elements are zero
+			k := (1 + t.Choose(rt.SGen, bits/eb)) * eb / 4
+			h = h[:len(h)-k] + strings.Repeat("0", k)
+		}
 		return "0x" + h, true
 	case types.TSlice:
 		// an unsized argument: its length is that of the value passed (1..12 elements)
